@@ -1264,8 +1264,14 @@ func (m *Manager) handleMessage(tm *TaskmanMessage) error {
 				mesosState == mesos.TASK_RUNNING ||
 				mesosState == mesos.TASK_KILLING ||
 				mesosState == mesos.TASK_UNKNOWN) {
-			killCall := calls.Kill(mesosStatus.TaskID.GetValue(), mesosStatus.AgentID.GetValue())
-			calls.CallNoData(context.TODO(), m.schedulerState.cli, killCall)
+			// Only tasks which this core does not own are killed: after a mere reconnection Mesos answers the
+			// implicit reconciliation for every task, including the ones owned by live environments.
+			if t := m.GetTask(mesosStatus.TaskID.GetValue()); t == nil || !t.IsLocked() {
+				killCall := calls.Kill(mesosStatus.TaskID.GetValue(), mesosStatus.AgentID.GetValue())
+				calls.CallNoData(context.TODO(), m.schedulerState.cli, killCall)
+			} else {
+				go m.updateTaskStatus(&mesosStatus)
+			}
 		} else {
 			// Enqueue task state update
 			go m.updateTaskStatus(&mesosStatus)
